@@ -178,6 +178,8 @@ def make_case(prop, what, kind, Dx, Dy, Rc, Rx, N=1, semi=None, timeout=300, ext
             py = c.affine_marginal_transformation(px)
             out["post"] = post.condition_on_x(y).evaluate_ln(x)   # [R*1, 1]
             out["py"] = py.evaluate_ln(y)
+            out["lik_lib"] = c(x).evaluate_ln(y)                   # [Rc*1, 1]: the library's own p(y|x) at the point
+            out["px_lib"] = px.evaluate_ln(x)                      # [Rx, 1]
             out["cf"] = {"M": post.M, "b": post.b, "Sigma": post.Sigma, "Lambda": post.Lambda, "ln_det_Sigma": post.ln_det_Sigma}
         elif what == "roundtrip":
             post = c.affine_conditional_transformation(px)
@@ -270,6 +272,10 @@ def make_case(prop, what, kind, Dx, Dy, Rc, Rx, N=1, semi=None, timeout=300, ext
                 lhs[k] = O["post"][k, 0] + O["py"][k, 0]
                 rhs[k] = spec_cond_logpdf(ops, cp, rc, x[0], y[0]) + spec.logN(ops, x[0], mx[rx], Sx[rx])
             cl.append(("p(x|y) p(y) = p(y|x) p(x)", lhs, rhs))
+            rhs_lib = ops.zeros((R,))
+            for k, (rc, rx) in enumerate(lay):
+                rhs_lib[k] = O["lik_lib"][rc, 0] + O["px_lib"][rx, 0]
+            cl.append(("p(x|y) p(y) = cond(x)(y) * p_x(x) with the library's own evaluations on the right", lhs, rhs_lib))
             cf = O["cf"]
             cl += invariant_claims(ops, {"Lambda": cf["Lambda"], "Sigma": cf["Sigma"], "ln_det_Sigma": cf["ln_det_Sigma"]}, "posterior conditional")
         elif what == "roundtrip":
